@@ -8,7 +8,7 @@ from ..cfg import cfg_of
 from ..facts import catalogue, catalogue_literal, emission_sites, value_set
 from ..fold import try_fold
 from ..minieval import Evaluator, Obj, Unsupported
-from ..model import AnalysisError, ancestors, parent, text, walk_fn
+from ..model import AnalysisError, Undecided, ancestors, parent, text, walk_fn
 from .c05 import _cfg_node_of_expr
 
 LEVELS = {"Error", "Notice"}
@@ -84,7 +84,7 @@ def rule_catalogue(run, prog):
         except Raised as r:
             pass
     except Unsupported as e:
-        raise AnalysisError(f"Error.from_name is outside the evaluable subset: {e}")
+        raise Undecided(f"Error.from_name is outside the evaluable subset: {e}")
     run.ob("R-8.1", "errors.py::Error.from_name::text-from-catalogue", bad is None,
            f"Error.from_name does not take the text from norm_error.errors[name]: {bad}", fnm.node, evaluations=len(cat) + 1)
 
@@ -131,7 +131,7 @@ def rule_levels(run, prog):
             lv = [f"exception {r.value!r}"]
         run.ob("R-8.2", f"{addm.key}::default-level", lv == ["Error"], f"Errors.add no longer defaults level to Error: {lv}", addm.node)
     except Unsupported as e:
-        raise AnalysisError(f"class Errors / Error is outside the evaluable subset: {e}")
+        raise Undecided(f"class Errors / Error is outside the evaluable subset: {e}")
 
 
 def _emit_through_context(prog, mname):
@@ -160,7 +160,7 @@ def _emit_through_context(prog, mname):
             shape.append((ev.getattr(e, "name"), ev.getattr(e, "text"), first))
         return levels, shape, None
     except Unsupported as e:
-        raise AnalysisError(f"Context.{mname} is outside the evaluable subset: {e}")
+        raise Undecided(f"Context.{mname} is outside the evaluable subset: {e}")
 
 
 def _is_error_ctor(v) -> bool:
@@ -373,7 +373,7 @@ def rule_order(run, prog):
                     if bad:
                         break
         except Unsupported as e:
-            raise AnalysisError(f"{fn.key} is outside the evaluable subset: {e}")
+            raise Undecided(f"{fn.key} is outside the evaluable subset: {e}")
         return bad, n
 
     bad, n = laws(H, lambda h: (h.lineno, h.column), "Highlight.__lt__", hl)
@@ -422,7 +422,7 @@ def rule_order(run, prog):
                 except Raised as r:
                     bad = bad or f"iteration raises {r.value!r}"
     except Unsupported as e:
-        raise AnalysisError(f"class Errors is outside the evaluable subset: {e}")
+        raise Undecided(f"class Errors is outside the evaluable subset: {e}")
     run.ob("R-8.4", "errors.py::Errors.__iter__::sorted-view", bad is None,
            f"Errors.__iter__ does not hand out the diagnostics sorted by Error.__lt__ (ascending): {bad}", it.node if it else None)
     # multi-highlight creation sites list the smallest position first
@@ -596,7 +596,7 @@ def rule_formatters(run, prog):
                 outs[c.name] = None
                 problems[c.name] = f"the formatter raises {r.value!r}"
     except Unsupported as e:
-        raise AnalysisError(f"a formatter is outside the evaluable subset: {e}")
+        raise Undecided(f"a formatter is outside the evaluable subset: {e}")
     b0 = FormatterBench(prog)
     _, plan = build(b0)
     want_names = [p for p, _ in plan]
